@@ -10,6 +10,7 @@ import ast
 from svtstatic import poly
 from svtstatic.values import Closure
 from svtstatic.interp import Env
+from svtstatic.model import AnchorMissing
 from .common import *
 
 PROPERTY = 'C05'
@@ -135,7 +136,18 @@ def run(ctx):
         ob('R05.2').run(f, 'end-point shortcuts (%s)' % nm, th_short, judge_short, opts=nocalc)
 
     # ---------------------------------------------------------------- R05.3
-    fc = mdl.func('path.Path._calc_lengths')
+    # the method that builds the length table: `_calc_lengths` when it exists, else the table builder discovered by interpretation
+    # (C16) that takes the tolerances
+    PathC = mdl.cls('path.Path')
+    builder = '_calc_lengths'
+    if builder not in PathC.methods:
+        from . import c16
+        found, _w, _f = c16._ensurers(ctx, mdl, PathC)
+        cands = sorted(n for n in found if {'error', 'min_depth'} <= set(PathC.methods[n].params()) and n.startswith('_'))
+        if not cands:
+            raise AnchorMissing('no method of Path builds the length table with given tolerances')
+        builder = cands[0]
+    fc = PathC.methods[builder]
     seen = []
 
     def len_hook(it, a, k):
@@ -148,7 +160,7 @@ def run(ctx):
         del seen[:]
         p, segs = mk_path(it, lengths=False)
         p.attrs['_length'] = None
-        it.call_method(p, '_calc_lengths', error=Rat.sym('err'), min_depth=Rat.sym('md'))
+        it.call_method(p, builder, error=Rat.sym('err'), min_depth=Rat.sym('md'))
         return p, segs, list(seen)
 
     def judge_calc(v):
@@ -180,7 +192,7 @@ def run(ctx):
     def th_zero(it):
         p, segs = mk_path(it, lengths=False)
         p.attrs['_length'] = None
-        it.call_method(p, '_calc_lengths', error=Rat.sym('err'), min_depth=Rat.sym('md'))
+        it.call_method(p, builder, error=Rat.sym('err'), min_depth=Rat.sym('md'))
         return p
 
     def judge_zero(p):
